@@ -325,9 +325,15 @@ func suiteWire(c *Ctx) {
 		nB = 1500
 	}
 	// emit the three comparisons for one message built by the real code
+	recycled := &interfaces.ConsensusRawMessage{} // a transport may recycle one inbound struct: parsing must depend on the bytes alone
 	emit := func(kind string, term string, m interfaces.ConsensusMessage, km *wireKM) {
 		raw := m.ToConsensusRawMessage()
 		content := append([]byte{}, raw.Content...)
+		recycled.Content, recycled.Block = content, raw.Block
+		if pm, err := interfaces.ParseConsensusMessage(recycled); err != nil || pm == nil || pm.MessageType() != m.MessageType() || pm.View() != m.View() ||
+			pm.BlockHeight() != m.BlockHeight() || !bytes.Equal(pm.SenderMemberId(), m.SenderMemberId()) {
+			c.Violation("C20", "parse-depends-on-history", fmt.Sprintf("%s: parsing a recycled raw-message struct that now holds these bytes does not give this message (err=%v)", kind, err), "content="+hex.EncodeToString(content))
+		}
 		hx := hex.EncodeToString(content)
 		c.Emit("enc "+term, hx)
 		rterm, rhdr := wreadContent(content)
